@@ -227,7 +227,11 @@ def _install(pe, io):
     S["resvg::tiny_skia::Pixmap::encode_png"] = s_encode_png
 
 
-def _run(f, path, fail_at, builder_ctor, produce, want_doc=False, configured=False):
+LONG_PATHS = ["d/" + "\u00e9" * 60 + ".x", "d/a" + "\u00e9" * 60 + ".x", "\u65e5" * 45, "a" + "\u65e5" * 45, "ab" + "\u65e5" * 45,
+              "dir/" + "n" * 300 + ".ext", "\U0001f600" * 30 + "/f", "x" + "\U0001f600" * 30, "xy" + "\U0001f600" * 30, "xyz" + "\U0001f600" * 30]
+
+
+def _run(f, path, fail_at, builder_ctor, produce, want_doc=False, configured=False, file_path="out/file.ext"):
     """-> (result, io model, expected document bytes | None)"""
     pe = peval.PEval(f, max_steps=30_000_000)
     b = pe.call(builder_ctor, [])
@@ -265,7 +269,7 @@ def _run(f, path, fail_at, builder_ctor, produce, want_doc=False, configured=Fal
     for name, model in produce.items():
         pe.summaries[name] = model
     pe.memo = {}
-    r = pe.call(path, [("ref", ("const", b.value)), ("ref", ("const", q.value)), ("ref", ("const", ("str", "out/file.ext")))])
+    r = pe.call(path, [("ref", ("const", b.value)), ("ref", ("const", q.value)), ("ref", ("const", ("str", file_path)))])
     return r, io, doc
 
 
@@ -348,4 +352,30 @@ def c19_r4(ctx, f, rid="C19.R4"):
                          "the writer returns Ok although an I/O operation failed", expected="Err(_)", found="Ok")
             else:
                 ctx.ok(rid, "%s: fault at %s -> Err" % (path.split("::")[-2], what))
+        # long and non-ASCII paths (every alignment of 2-, 3- and 4-byte characters against any byte offset): the same outcomes
+        if not configured:
+            for lp in LONG_PATHS:
+                shown = lp[:6] + "...(%d bytes)" % len(lp.encode())
+                for k in range(0, nops + 1):
+                    r, io, _ = _run(f, path, k, ctor, produce, False, False, file_path=lp)
+                    what = "no fault" if k == 0 else (io.ops[k - 1] if len(io.ops) >= k else "?")
+                    if r is None:
+                        continue
+                    if r.kind == "diverge":
+                        ctx.fail(rid, "%s/long-path/%s/panics" % (path, "fault" if k else "no-fault"), where_fn(fn), path,
+                                 "path %s, %s" % (shown, what), "the writer panics for a long or non-ASCII path", found=r.why)
+                        break
+                    if r.kind != "ret" or r.value == TOP or r.value[0] != "adt" or r.value[1] != RESULT:
+                        continue  # no verdict for this path
+                    want_v = "Ok" if k == 0 else "Err"
+                    if r.value[3] != want_v:
+                        ctx.fail(rid, "%s/long-path/%s" % (path, want_v.lower()), where_fn(fn), path, "path %s, %s" % (shown, what),
+                                 "the outcome depends on the path's length or characters", expected=want_v, found=r.value[3])
+                        break
+                    if k == 0 and (len(io.files) != 1 or list(io.files.values())[0]["path"] != lp):
+                        ctx.fail(rid, "%s/long-path/path" % path, where_fn(fn), path, "path %s" % shown, "the file written is not the path requested",
+                                 expected=lp[:40], found=[x["path"][:40] for x in io.files.values()])
+                        break
+                else:
+                    ctx.ok(rid, "%s: path %s behaves as the short one under every schedule" % (path.split("::")[-2], shown))
     return decided
